@@ -53,3 +53,52 @@ pub fn err_class(e: &SavefileError) -> &'static str {
         _ => "EOther",
     }
 }
+
+/// bzip2-decompress with the bzip2 crate directly (not through savefile)
+pub fn bunzip(b: &[u8]) -> Option<Vec<u8>> {
+    use std::io::Read;
+    let mut d = bzip2::read::BzDecoder::new(b);
+    let mut out = Vec::new();
+    d.read_to_end(&mut out).ok()?;
+    Some(out)
+}
+
+/// Independent reference decryptor of the encrypted container, written against the documented
+/// framing (12-byte nonce, then [u64 len][AES-256-GCM ciphertext || 16-byte tag] chunks, the nonce
+/// counter advanced before every chunk), using ring directly. Returns (plaintext, chunk plaintext sizes).
+pub fn ref_decrypt(file: &[u8], password: &str) -> Option<(Vec<u8>, Vec<usize>)> {
+    use ring::aead::{Aad, LessSafeKey, Nonce, UnboundKey, AES_256_GCM};
+    let key = ring::digest::digest(&ring::digest::SHA256, password.as_bytes());
+    let key = LessSafeKey::new(UnboundKey::new(&AES_256_GCM, key.as_ref()).ok()?);
+    if file.len() < 12 {
+        return None;
+    }
+    let mut data1 = u64::from_le_bytes(file[0..8].try_into().unwrap());
+    let mut data2 = u32::from_le_bytes(file[8..12].try_into().unwrap());
+    let mut pos = 12;
+    let mut out = Vec::new();
+    let mut sizes = Vec::new();
+    while pos < file.len() {
+        if pos + 8 > file.len() {
+            return None;
+        }
+        let l = u64::from_le_bytes(file[pos..pos + 8].try_into().unwrap()) as usize;
+        pos += 8;
+        if pos + l > file.len() || l < 16 {
+            return None;
+        }
+        data2 = data2.wrapping_add(1);
+        if data2 == 0 {
+            data1 = data1.wrapping_add(1);
+        }
+        let mut nb = [0u8; 12];
+        nb[..8].copy_from_slice(&data1.to_le_bytes());
+        nb[8..].copy_from_slice(&data2.to_le_bytes());
+        let mut chunk = file[pos..pos + l].to_vec();
+        let pt = key.open_in_place(Nonce::assume_unique_for_key(nb), Aad::empty(), &mut chunk).ok()?;
+        sizes.push(pt.len());
+        out.extend_from_slice(pt);
+        pos += l;
+    }
+    Some((out, sizes))
+}
